@@ -3,11 +3,19 @@ package main
 import (
 	"bytes"
 	crand "crypto/rand"
+	"encoding/base64"
 	"fmt"
 	"regexp"
+	"strconv"
 	"strings"
+	"time"
 
 	crypt "github.com/sergeymakinen/go-crypt"
+	"github.com/sergeymakinen/go-crypt/argon2"
+	"github.com/sergeymakinen/go-crypt/bcrypt"
+	crypthash "github.com/sergeymakinen/go-crypt/hash"
+	"github.com/sergeymakinen/go-crypt/sha256"
+	"github.com/sergeymakinen/go-crypt/sha512"
 )
 
 func init() {
@@ -109,6 +117,8 @@ func corrSchemes(prop, outDir string, seed uint64, tier string) *report {
 	}
 	nCoq := 0
 	for _, s := range schemes {
+		t0 := time.Now()
+		defer func(name string, t0 time.Time) {}(s.name, t0)
 		pws := pwDomain(s.name, r, tier)
 		for i, pw := range pws {
 			for k := 0; k < 2; k++ {
@@ -183,9 +193,26 @@ func corrSchemes(prop, outDir string, seed uint64, tier string) *report {
 				}
 			}
 		}
+		if prop == "C02" {
+			// genuine hashes in the variants NewHash never writes
+			pw := "pw" + r.str(3, "xyz")
+			if s.name == "des" {
+				pw = "pwxyz"
+			}
+			for _, h := range constructedHashes(s, pw) {
+				if err, pan := checkWatch(s, h, pw); err != nil || pan != nil {
+					rep.fail(map[string]interface{}{"scheme": s.name, "hash": h, "password": pw}, "nil (the digest is Key's own output for the parameters written in the string)", fmt.Sprint(err, pan),
+						"a hash built from Key and the documented layout does not verify")
+					continue
+				}
+				c02Cases(rep, r, sink, s, h, pw, tier)
+				rep.bump("c02_constructed_bases")
+			}
+		}
 		if prop == "C12" {
 			c12Coherence(rep, sink, s)
 		}
+		rep.Distribution["seconds_"+s.name] = int(time.Since(t0).Seconds())
 	}
 	must(csN.flush())
 	must(csC.flush())
@@ -234,6 +261,10 @@ func c02Cases(rep *report, r *rng, sink *checkCaseSink, s *schemeOps, h, pw stri
 		rep.Distribution["c02_exhaustive_"+s.name] = 1
 	}
 	never := func(h2, pw2, kind string, toCoq bool) {
+		if rc := recognise(s.name, h2); rc.ok && (tooExpensive(s.name, rc) || s.name == "argon2" && len(rc.p.nums) >= 3 && (rc.p.nums[0] > 2048 || rc.p.nums[1] > 12) || s.name == "bcrypt" && rc.p.nums[0] > 6) {
+			rep.bump("c02_skipped_expensive_cost")
+			return
+		}
 		err, pan := sink.add(s, h2, pw2, toCoq, kind)
 		rep.bump("c02_" + kind)
 		if err == nil && pan == nil {
@@ -260,6 +291,20 @@ func c02Cases(rep *report, r *rng, sink *checkCaseSink, s *schemeOps, h, pw stri
 						return
 					}
 				}
+				if s.name == "argon2" {
+					// judged by the extracted Coq model (RFC 9106 structure, real BLAKE2b), not by the library's own Key
+					if mk, ok := c02ArgonModelKey(pw2, rc.p); ok {
+						rep.bump("c02_success_judged_by_the_argon2_model")
+						if base64.RawStdEncoding.EncodeToString(mk) == rc.sum {
+							rep.bump("c02_success_by_genuine_digest_equality")
+							return
+						}
+						rep.fail(map[string]interface{}{"scheme": s.name, "hash": h2, "password_hex": fmt.Sprintf("%x", pw2), "original_hash": h, "original_password_hex": fmt.Sprintf("%x", pw)},
+							"mismatch or error (the RFC 9106 model derives "+base64.RawStdEncoding.EncodeToString(mk)+" for the costs written in this string)", "nil",
+							"verification succeeds for a "+kind+" although the reference digest for the string's own salt, cost and version differs from the stored one")
+						return
+					}
+				}
 				if key, kerr := s.key(pw2, rc.p); kerr == nil && refSum(s.name, key) == rc.sum {
 					rep.bump("c02_success_by_genuine_digest_equality")
 					return
@@ -283,6 +328,11 @@ func c02Cases(rep *report, r *rng, sink *checkCaseSink, s *schemeOps, h, pw stri
 				continue
 			}
 			if !exhaustive && r.intn(30) != 0 {
+				continue
+			}
+			// quick tier: the whole alphabet at the first and the last two digest positions, six symbols elsewhere
+			// (the theorem C02_tamper covers every digest text; the correspondence samples it)
+			if tier != "thorough" && i != lo && i < hi-2 && r.intn(10) != 0 {
 				continue
 			}
 			// the last symbol of an encoding of raw bytes has unused bits: a different spelling of the same bits
@@ -340,7 +390,7 @@ func c02Cases(rep *report, r *rng, sink *checkCaseSink, s *schemeOps, h, pw stri
 	}
 	for i := 0; i < len(b) && i < 80; i++ {
 		for bit := 0; bit < 8; bit++ {
-			if tier != "thorough" && (bit+i)%3 != 0 {
+			if tier != "thorough" && ((bit+i)%3 != 0 || i >= 24 && i < len(b)-8 && i%4 != 0) {
 				continue
 			}
 			p2 := append([]byte(nil), b...)
@@ -365,6 +415,14 @@ func c02Cases(rep *report, r *rng, sink *checkCaseSink, s *schemeOps, h, pw stri
 	// cost / version fields rewritten to numbers congruent modulo the field width, and past each width
 	for _, e := range numericEdits(h[:lo]) {
 		never(e+h[lo:], pw, "cost_overflow_edit", true)
+	}
+	// every decimal field rewritten to the values around it and to every small value (a cost that is clamped, rounded
+	// or defaulted somewhere below the codec must still change the digest)
+	for _, e := range numericNeighbours(h[:lo]) {
+		if rc := recognise(s.name, e+h[lo:]); tooExpensive(s.name, rc) {
+			continue
+		}
+		never(e+h[lo:], pw, "cost_neighbour_edit", false)
 	}
 	// salt / cost edits: every position before the digest, replaced by another symbol of the same class
 	for i := 0; i < lo; i++ {
@@ -457,4 +515,112 @@ func c12Coherence(rep *report, sink *checkCaseSink, s *schemeOps) {
 			rep.bump("c12_coherence")
 		}
 	}
+}
+
+// numericNeighbours: for every decimal field (as in numericEdits) the strings with the field set to v-3..v+3, v/2, 2v
+// and every value 0..24, v itself excluded.
+func numericNeighbours(h string) []string {
+	var out []string
+	for i := 0; i < len(h); i++ {
+		if !(h[i] >= '0' && h[i] <= '9') || (i > 0 && !strings.ContainsRune("$,=", rune(h[i-1]))) {
+			continue
+		}
+		j := i
+		for j < len(h) && h[j] >= '0' && h[j] <= '9' {
+			j++
+		}
+		if j < len(h) && h[j] != '$' && h[j] != ',' || j-i > 9 {
+			i = j
+			continue
+		}
+		v, _ := strconv.Atoi(h[i:j])
+		seen := map[int]bool{v: true}
+		cands := []int{v - 3, v - 2, v - 1, v + 1, v + 2, v + 3, v / 2, 2 * v}
+		for k := 0; k <= 24; k++ {
+			cands = append(cands, k)
+		}
+		for _, c := range cands {
+			if c < 0 || seen[c] {
+				continue
+			}
+			seen[c] = true
+			t := strconv.Itoa(c)
+			for len(t) < j-i && h[i] == '0' { // keep fixed-width fields (bcrypt's two-digit cost) at their width
+				t = "0" + t
+			}
+			out = append(out, h[:i]+t+h[j:])
+		}
+		i = j
+	}
+	return out
+}
+
+var c02Model *modelProc
+var c02ModelTried bool
+
+// c02ArgonModelKey: the key the extracted model derives for the parameters recognised in an Argon2 string
+func c02ArgonModelKey(pw string, p hparams) ([]byte, bool) {
+	if !c02ModelTried {
+		c02ModelTried = true
+		if m, err := startModel(); err == nil {
+			c02Model = m
+		}
+	}
+	if c02Model == nil || len(p.nums) < 4 {
+		return nil, false
+	}
+	mode := map[string]int{"$argon2d$": 0, "$argon2i$": 1, "$argon2id$": 2}[p.prefix]
+	raw, err := base64.RawStdEncoding.DecodeString(string(p.salt))
+	if err != nil {
+		return nil, false
+	}
+	got, err := c02Model.run(fmt.Sprintf("argon2 %d %d %s %s %d %d %d 32", mode, p.nums[3], hx([]byte(pw)), hx(raw), p.nums[1], p.nums[0], p.nums[2]))
+	if err != nil || got == "NONE" || got == "BADREQUEST" {
+		return nil, false
+	}
+	return unhx(got), true
+}
+
+// constructedHashes: genuine hashes in the variants NewHash never writes (Argon2 with several lanes, the d / i variants,
+// version 0x10 with and without a v= field; bcrypt $2a$ and $2$; SHA-crypt with the implicit round count), built
+// from Key and the documented layout.
+func constructedHashes(s *schemeOps, pw string) []string {
+	var out []string
+	defer func() { recover() }()
+	switch s.name {
+	case "argon2":
+		salt := base64.RawStdEncoding.EncodeToString([]byte("saltsalt"))
+		for _, v := range []struct {
+			prefix string
+			ver    int
+			vfield string
+			m, t   uint32
+			p      uint8
+		}{{"$argon2id$", 0x13, "v=19$", 16, 1, 2}, {"$argon2i$", 0x10, "", 24, 1, 3}, {"$argon2d$", 0x10, "v=16$", 40, 2, 4}} {
+			k, err := argon2.Key([]byte(pw), []byte(salt), v.m, v.t, v.p, &argon2.CompatibilityOptions{Prefix: v.prefix, Version: v.ver})
+			if err == nil {
+				out = append(out, fmt.Sprintf("%s%sm=%d,t=%d,p=%d$%s$%s", v.prefix, v.vfield, v.m, v.t, v.p, salt, base64.RawStdEncoding.EncodeToString(k)))
+			}
+		}
+	case "bcrypt":
+		salt := "abcdefghijklmnopqrstuu"
+		for _, prefix := range []string{"$2a$", "$2$"} {
+			if prefix == "$2$" && pw == "" {
+				continue
+			}
+			k, err := bcrypt.Key([]byte(pw), []byte(salt), 5, &bcrypt.CompatibilityOptions{Prefix: prefix})
+			if err == nil {
+				out = append(out, prefix+"05$"+salt+bcrypt.Encoding.EncodeToString(k))
+			}
+		}
+	case "sha256":
+		if k, err := sha256.Key([]byte(pw), []byte("saltsalt"), 5000); err == nil {
+			out = append(out, "$5$saltsalt$"+crypthash.LittleEndianEncoding.EncodeToString(k))
+		}
+	case "sha512":
+		if k, err := sha512.Key([]byte(pw), []byte("saltsalt"), 5000); err == nil {
+			out = append(out, "$6$saltsalt$"+crypthash.LittleEndianEncoding.EncodeToString(k))
+		}
+	}
+	return out
 }
